@@ -476,7 +476,7 @@ pub fn cli_unit(ctx: &Ctx, rng: &mut Rng, o: &mut Out) {
   o.oracle("cli-run-done", true, json!({"cases": cases}));
 }
 
-fn run_cli(exe: &std::path::Path, args: &[&str], timeout_s: u64) -> Result<String, String> {
+pub fn run_cli(exe: &std::path::Path, args: &[&str], timeout_s: u64) -> Result<String, String> {
   let mut child = Command::new("timeout")
     .arg(format!("{timeout_s}"))
     .arg(exe)
